@@ -61,7 +61,7 @@ def _routes(args):
     from ruamel.yaml import YAML
     rng = random.Random(f'{seed}:c12:{k}')
     amp.reset_prms()
-    defaults = copy.deepcopy(dynamic.get_default_prms())
+    defaults = common.packaged_defaults()
     rows, _, _ = tablecheck.gen_scene(seed, k, rng.choice(['synth', 'exact', 'multi']))
     assignment = valid_assignment(rng, defaults, rows)
     findings = []
@@ -128,7 +128,7 @@ def _resets(args):
     amp = common.import_ampycloud()
     from ampycloud import dynamic
     rng = random.Random(f'{seed}:c12reset:{chunk_id}')
-    defaults = copy.deepcopy(dynamic.get_default_prms())
+    defaults = common.packaged_defaults()
     findings = []
     for names in subsets:
         amp.reset_prms()
@@ -173,7 +173,7 @@ def _hist(args):
     common.import_ampycloud()
     from ampycloud import dynamic
     rng = random.Random(f'{seed}:c12hist:{k}')
-    defaults = copy.deepcopy(dynamic.get_default_prms())
+    defaults = common.packaged_defaults()
     ops = []
     n_callers = 0
     top = list(defaults)
@@ -205,7 +205,7 @@ def run(chk):
     n_hist = 300 if quick else 3000
     common.import_ampycloud()
     from ampycloud import dynamic
-    top = list(dynamic.get_default_prms())
+    top = list(common.packaged_defaults())
     subsets = [()] + [(a,) for a in top] + list(itertools.combinations(top, 2))
     if quick:
         subsets += [tuple(chk.rng.sample(top, chk.rng.randint(3, len(top)))) for _ in range(200)]
